@@ -121,10 +121,48 @@ Applicable(o) == IF o[1] \in {"constraints_never", "constraints_only_start"}
 ObjCase(o, n) == [kind |-> "objective", class |-> o[1], n |-> n, m |-> <<>>,
                   obj |-> o[1], k |-> o[2], calls |-> Calls(Applicable(o), n)]
 
+(* An Epsilon option below the attainable accuracy: the residual of the    *)
+(* transcendental equation exp(x) = t (t = k for k > 0, t = 1/(-k) for     *)
+(* k < 0; objective exp(x) - t x for the critical-point / minimum          *)
+(* variants) is never exactly zero in floating point for t = 3 and         *)
+(* t = 1/100, so with Epsilon{1e-30} the stop criterion can never fire;    *)
+(* the routine must still come back (value or error).  Driven through the  *)
+(* Newton family, whose only other exit is the unbounded default           *)
+(* MaxIterations.                                                          *)
+EpsCases == { [kind |-> "objective", class |-> "epsilon_unattainable", n |-> 1, m |-> <<>>,
+               obj |-> "epsilon_unattainable", k |-> x[1], calls |-> Calls(x[2], 1)] :
+              x \in { <<3, <<"newtonRoot", "newtonCrit">> >>, <<-100, <<"newtonMin">> >>,
+                      <<2, <<"newtonRoot", "newtonCrit", "newtonMin">> >> } }
+
+(* ------------------------------------------------- line search options *)
+(* lineSearch.Run(phi, Parameters{Alpha1, MaxEval}, Constraints{c}): the   *)
+(* first trial step Alpha1 = a1n/a1d ranges over dyadic AND non-dyadic     *)
+(* values (the step-length arithmetic of the constraint back-off must      *)
+(* terminate for every mantissa), the feasible region is                   *)
+(*   le      alpha <= Alpha1 * bn/bd : for bn/bd = 1, 2, 4, 8 the region   *)
+(*           ends EXACTLY at the first accepted step or one of its         *)
+(*           expansions (steps are doubled), 137/100 and 1/2 put the       *)
+(*           boundary strictly between / below trial steps;                *)
+(*   lt      alpha <  Alpha1 * bn/bd;                                      *)
+(*   never   empty;      only_zero   alpha = 0 only.                       *)
+(* Objectives: neg_linear phi = -alpha (every step is accepted and         *)
+(* expanded), far_quadratic (alpha/Alpha1 - 10)^2 (a few expansions, then  *)
+(* zoom), quadratic (alpha - 1)^2.  The call must return (a step or an     *)
+(* error) within the budget.                                               *)
+Alpha1s  == { <<1,1>>, <<1,2>>, <<1,10>>, <<3,10>>, <<7,10>>, <<11,10>>, <<23,10>>, <<1,3>>, <<1,1000>>, <<370000,1>> }
+LsRegions == { <<"le", 1, 1>>, <<"le", 2, 1>>, <<"le", 4, 1>>, <<"le", 8, 1>>, <<"le", 137, 100>>, <<"le", 1, 2>>,
+               <<"lt", 1, 1>>, <<"lt", 2, 1>>, <<"never", 0, 1>>, <<"only_zero", 0, 1>> }
+LsObjectives == {"neg_linear", "far_quadratic", "quadratic"}
+LsCase(a, g, o, me) == [kind |-> "linesearch", class |-> "ls_" \o g[1], n |-> 1,
+                        m |-> <<a[1], a[2], g[2], g[3], me>>, obj |-> o, k |-> 0,
+                        calls |-> Calls(<<"lineSearch">>, 1)]
+
 (* -------------------------------------------------------------- output *)
 VARIABLE c
 Init == \/ \E x \in Int1 \cup Int2 \cup Int3 \cup Int4 \cup Structured : c = MatrixCase(x)
         \/ \E o \in ObjClasses, n \in 1..2 : c = ObjCase(o, n)
+        \/ \E x \in EpsCases : c = x
+        \/ \E a \in Alpha1s, g \in LsRegions, o \in LsObjectives, me \in {20, 1} : c = LsCase(a, g, o, me)
 Next == UNCHANGED c
 Spec == Init /\ [][Next]_c
 Emit == PrintT(ToJson(c))
